@@ -5,6 +5,8 @@ import (
 	"fmt"
 	"net"
 	"strings"
+	"sync"
+	"sync/atomic"
 	"testing"
 	"time"
 
@@ -621,13 +623,233 @@ func verifE2ECase(o *vh.Out, id string, rg *vh.Rng, given [][]string) {
 	emit([]string{"end"})
 }
 
+// verifE2EConcurrent is the part of C01 about real goroutines: started routers (their own loops), a WAN
+// with two LANs behind NATs, concurrent senders on every host, every receiver draining concurrently.
+// What arrives is judged on the spot (model-independent): each datagram at most once, intact, at the
+// socket it was addressed to, per flow in the order written, and — nothing here may drop (unbounded
+// queues, fewer than 1024 datagrams per socket, destinations bound, NAT mappings opened first) — all of it.
+func verifE2EConcurrent(seed uint64) string {
+	rg := vh.NewRng(seed)
+	lf := logging.NewDefaultLoggerFactory()
+	lf.DefaultLogLevel = logging.LogLevelDisabled
+	wan, _ := NewRouter(&RouterConfig{CIDR: "1.2.3.0/24", LoggerFactory: lf})
+	var hosts []*Net
+	var addrs []*net.UDPAddr
+	nLan := 1 + rg.Intn(2)
+	for k := 0; k < nLan; k++ {
+		lan, _ := NewRouter(&RouterConfig{CIDR: fmt.Sprintf("10.%d.0.0/24", k+1), LoggerFactory: lf, StaticIPs: []string{fmt.Sprintf("1.2.3.%d", 100+k)},
+			NATType: &NATType{MappingBehavior: EndpointIndependent, FilteringBehavior: EndpointIndependent}})
+		for j := 0; j < 2; j++ {
+			h, _ := NewNet(&NetConfig{StaticIPs: []string{fmt.Sprintf("10.%d.0.%d", k+1, 20+j)}})
+			_ = lan.AddNet(h)
+			hosts = append(hosts, h)
+			addrs = append(addrs, &net.UDPAddr{IP: net.ParseIP(fmt.Sprintf("10.%d.0.%d", k+1, 20+j)).To4(), Port: 4000})
+		}
+		_ = wan.AddRouter(lan)
+	}
+	for j := 0; j < 2; j++ {
+		h, _ := NewNet(&NetConfig{StaticIPs: []string{fmt.Sprintf("1.2.3.%d", 20+j)}})
+		_ = wan.AddNet(h)
+		hosts = append(hosts, h)
+		addrs = append(addrs, &net.UDPAddr{IP: net.ParseIP(fmt.Sprintf("1.2.3.%d", 20+j)).To4(), Port: 4000})
+	}
+	_ = wan.Start()
+	defer func() { _ = wan.Stop() }()
+	conns := make([]*UDPConn, len(hosts))
+	for i, h := range hosts {
+		c, err := h.ListenUDP("udp4", addrs[i])
+		if err != nil {
+			return "setup-failed"
+		}
+		conns[i], _ = c.(*UDPConn)
+	}
+	nW := len(hosts) - 2 // WAN hosts are the last two
+	wanIdx := []int{nW, nW + 1}
+	// plan: every LAN host sends to both WAN hosts (through its NAT); WAN hosts send to each other; WAN hosts
+	// reply to what they receive from the LAN (through the mapping)
+	const perFlow = 120
+	type rec struct {
+		payloads [][]byte
+		from     []string
+	}
+	got := make([]rec, len(hosts))
+	var mu sync.Mutex
+	var wg, rwg sync.WaitGroup
+	stop := make(chan struct{})
+	var replies int64
+	for i := range conns {
+		i := i
+		rwg.Add(1)
+		go func() {
+			defer rwg.Done()
+			buf := make([]byte, 2048)
+			for {
+				_ = conns[i].SetReadDeadline(time.Now().Add(20 * time.Millisecond))
+				n, from, err := conns[i].ReadFrom(buf)
+				if err != nil {
+					select {
+					case <-stop:
+						return
+					default:
+						continue
+					}
+				}
+				p := append([]byte(nil), buf[:n]...)
+				mu.Lock()
+				got[i].payloads = append(got[i].payloads, p)
+				got[i].from = append(got[i].from, from.String())
+				mu.Unlock()
+				// a WAN host answers the first datagrams of LAN flows: the reply must come back through the NAT
+				if i >= nW && len(p) >= 6 && p[0] == 'D' && int(p[1]) < nW && int(p[4])|int(p[5])<<8 < 20 {
+					r := append([]byte{'R'}, p[1:]...)
+					_, _ = conns[i].WriteTo(r, from)
+					atomic.AddInt64(&replies, 1)
+				}
+			}
+		}()
+	}
+	send := func(src, dst int) {
+		defer wg.Done()
+		for k := 0; k < perFlow; k++ {
+			size := 6 + (k*7+src)%40
+			p := make([]byte, size)
+			p[0], p[1], p[2], p[3], p[4], p[5] = 'D', byte(src), byte(dst), 0, byte(k), byte(k>>8)
+			for x := 6; x < size; x++ {
+				p[x] = byte(src*31 + dst*17 + k + x)
+			}
+			_, _ = conns[src].WriteTo(p, addrs[dst])
+			for x := range p { // the caller may reuse its buffer at once
+				p[x] = 0xEE
+			}
+			if k%16 == 0 {
+				time.Sleep(time.Duration(rg.Intn(300)) * time.Microsecond)
+			}
+		}
+	}
+	for src := 0; src < nW; src++ {
+		for _, dst := range wanIdx {
+			wg.Add(1)
+			go send(src, dst)
+		}
+	}
+	wg.Add(2)
+	go send(wanIdx[0], wanIdx[1])
+	go send(wanIdx[1], wanIdx[0])
+	wg.Wait()
+	// quiescence: nothing new for a while
+	last := -1
+	for tries := 0; tries < 200; tries++ {
+		time.Sleep(10 * time.Millisecond)
+		mu.Lock()
+		tot := 0
+		for i := range got {
+			tot += len(got[i].payloads)
+		}
+		mu.Unlock()
+		if tot == last && tries > 5 {
+			break
+		}
+		last = tot
+	}
+	close(stop)
+	rwg.Wait()
+	dup, corrupt, reorder, misdelivered, lost, badsrc := 0, 0, 0, 0, 0, 0
+	expectD := map[[2]int]bool{}
+	for src := 0; src < nW; src++ {
+		for _, dst := range wanIdx {
+			expectD[[2]int{src, dst}] = true
+		}
+	}
+	expectD[[2]int{wanIdx[0], wanIdx[1]}] = true
+	expectD[[2]int{wanIdx[1], wanIdx[0]}] = true
+	seen := map[string]bool{}
+	lastK := map[[3]int]int{}
+	countD := map[[2]int]int{}
+	nReplies := 0
+	for i := range got {
+		for j, p := range got[i].payloads {
+			if len(p) < 6 {
+				corrupt++
+				continue
+			}
+			src, dst, k := int(p[1]), int(p[2]), int(p[4])|int(p[5])<<8
+			key := fmt.Sprintf("%c/%d/%d/%d", p[0], src, dst, k)
+			if seen[key] {
+				dup++
+			}
+			seen[key] = true
+			kind := 0
+			if p[0] == 'R' {
+				kind = 1
+				nReplies++
+				if i != src { // a reply goes back to the LAN host that sent the original
+					misdelivered++
+				}
+			} else {
+				if i != dst {
+					misdelivered++
+				}
+				countD[[2]int{src, dst}]++
+				size := 6 + (k*7+src)%40
+				if len(p) != size {
+					corrupt++
+				} else {
+					for x := 6; x < size; x++ {
+						if p[x] != byte(src*31+dst*17+k+x) {
+							corrupt++
+							break
+						}
+					}
+				}
+				// the source shown is the sender's own address, or its NAT's WAN address for LAN senders
+				from := got[i].from[j]
+				if src < nW {
+					if !strings.HasPrefix(from, fmt.Sprintf("1.2.3.%d:", 100+src/2)) {
+						badsrc++
+					}
+				} else if from != addrs[src].String() {
+					badsrc++
+				}
+			}
+			fk := [3]int{kind, src, dst}
+			if prev, ok := lastK[fk]; ok && k < prev {
+				reorder++
+			}
+			lastK[fk] = k
+		}
+	}
+	for f := range expectD {
+		if countD[f] != perFlow {
+			lost += perFlow - countD[f]
+		}
+	}
+	if int64(nReplies) != atomic.LoadInt64(&replies) {
+		lost += int(atomic.LoadInt64(&replies)) - nReplies
+	}
+	return fmt.Sprintf("dup=%d corrupt=%d reorder=%d misdelivered=%d badsrc=%d lost=%d", dup, corrupt, reorder, misdelivered, badsrc, lost)
+}
+
 func TestVerifE2E(t *testing.T) {
 	vh.RunShards(func(shard int, rg *vh.Rng, o *vh.Out, n int) {
 		for i := 0; i < n; i++ {
 			verifE2ECase(o, fmt.Sprintf("%d.%d", shard, i), rg, nil)
 		}
+		// the concurrent part: real router goroutines, concurrent senders and receivers
+		rounds := 1
+		if vh.Thorough() {
+			rounds = 6
+		}
+		for i := 0; i < rounds; i++ {
+			o.Case(fmt.Sprintf("%d.conc%d", shard, i), "")
+			o.Op("conc # "+verifE2EConcurrent(vh.Seed()*1000+uint64(shard*10+i)), "conc", "-")
+		}
 	}, func(cs []vh.Case, o *vh.Out) {
 		for _, c := range cs {
+			if len(c.Ops) > 0 && c.Ops[0][0] == "conc" {
+				o.Case(c.ID, "")
+				o.Op("conc # "+verifE2EConcurrent(vh.Seed()), "conc", "-")
+				continue
+			}
 			verifE2ECase(o, c.ID, nil, c.Ops)
 		}
 	})
